@@ -86,8 +86,8 @@ PROPS = {
     },
     "C11": {
         "runs": [run("disk-load", 700, 8000, search_rounds=1, search_mult=1)],
-        "level_text": "Theorems over the backup-directory model, for every checksum function and every stored content: an intact backup loads exactly; every proper prefix of a shard file fails; a shard truncated at any offset or removed fails the load; unparsable/missing files.json, unparsable checksums.json or nitro.json, a checksum list of the wrong length are errors (never an empty database), a missing checksums.json gives the exact content; a manifest entry redirected to a shard with a different checksum is detected. Tied to LoadFromDisk by fault injection: a stored database (delta on/off) is damaged by single faults (every file removed, manifest bytes altered/truncated, shard bit flips and truncations, redirected entries, k = 1, conc, conc+1, all shards truncated at once); LoadFromDisk runs in child processes under a 20 s watchdog; ok(items)/error/panic/hang is compared with the model's load of the same damaged image.",
-        "level_note": "Full for the loader logic as modelled. Manifests enter the model as what encoding/json makes of them (parsed / unparsable / missing) — encoding/json, os and bufio are trusted. Detection of altered payload bytes rests on the XOR-of-CRC32 checksum: the model evaluates the real CRC on every injected fault, but 'every single-byte change alters CRC32' is not proved in Coq; item reordering inside a shard and paired flips are invisible to an XOR of CRCs (format limit). Termination is observed (watchdog), not proved.",
+        "level_text": "Theorems over the backup-directory model, for every checksum function and every stored content: an intact backup loads exactly; every proper prefix of a shard file fails; a shard truncated at any offset or removed fails the load; unparsable/missing files.json, unparsable checksums.json or nitro.json, a checksum list of the wrong length are errors (never an empty database), a missing checksums.json gives the exact content; a manifest entry redirected to a shard with a different checksum is detected; one altered payload byte is detected (CRC-32 single-byte theorem). Tied to LoadFromDisk by fault injection: a stored database (delta on/off) is damaged by single faults (every file removed, manifest bytes altered/truncated, shard bit flips and truncations, redirected entries, k = 1, conc, conc+1, all shards truncated at once); LoadFromDisk runs in child processes under a 20 s watchdog; ok(items)/error/panic/hang is compared with the model's load of the same damaged image.",
+        "level_note": "Full for the loader logic as modelled. Manifests enter the model as what encoding/json makes of them (parsed / unparsable / missing) — encoding/json, os and bufio are trusted. Detection of altered payload bytes rests on the XOR-of-CRC32 checksum: C11_crc32_single_byte proves that CRC-32 separates any two strings differing in one byte (all lengths, all positions) and C11_payload_byte_detected lifts it to the loader (one altered payload byte in any item of any shard => error); changes of several bytes can collide in principle (32-bit checksum); item reordering inside a shard and paired flips are invisible to an XOR of CRCs (format limit). Termination is observed (watchdog), not proved.",
         "assumptions": ["encoding/json, os, bufio behave as documented", "single-fault-per-file damage; checksum collisions excluded"],
     },
     "C12": {
